@@ -74,7 +74,7 @@ CHECKS = {
    technique="deterministic simulation: metamorphic query groups under seeded indexer lag, maintenance and restarts"),
  "C12": dict(
    level="exploration", design="DESIGN.md §7 C12",
-   text="2-4 concurrent SQL sessions (autocommit statements and multi-statement transactions) issue INSERT / UPSERT / INSERT ON CONFLICT DO NOTHING / UPDATE (also of the unique column) / DELETE with values that violate PRIMARY KEY, UNIQUE, NOT NULL, VARCHAR length and CHECK constraints at a raised rate, a DDL task may create the unique index while they run, an auto-increment table is filled concurrently. A checker task during the run, and the harness after it and after a restart, scans the committed tables: no duplicate primary key, no duplicate value in the unique index, no NULL in NOT NULL columns, lengths and CHECK satisfied, scans through every index return the same rows as the primary-key scan, auto-generated keys never handed out twice.",
+   text="2-4 concurrent SQL sessions (autocommit statements and multi-statement transactions) issue INSERT / UPSERT / INSERT ON CONFLICT DO NOTHING / UPDATE (also of the unique column) / DELETE with values that violate PRIMARY KEY, UNIQUE, NOT NULL, VARCHAR length and CHECK constraints at a raised rate, a DDL task may create the unique index while they run, an auto-increment table is filled concurrently. A checker task during the run, and the harness after it and after a restart, scans the committed tables: no duplicate primary key, no duplicate value in the unique index (single-column on t(a); composite on u(p, q), exercised by INSERT/UPSERT/UPDATE of either column/DELETE), no NULL in NOT NULL columns, lengths and CHECK satisfied, scans through every index return the same rows as the primary-key scan, auto-generated keys never handed out twice.",
    note="Column add/drop/rename are not generated.",
    technique="deterministic simulation: seeded concurrent sessions, invariant scan of committed tables"),
  "C13": dict(
